@@ -289,9 +289,10 @@ def divSigned (t : IntTy) (π : Policy) (to0 x y : Int) (dir : Dir) : Int × Res
     else if y == -1 then (to, V_EQ)
     else
       let m := x.tmod y
-      if m < 0 then roundLtNoOverflow to dir
-      else if m > 0 then roundGtNoOverflow to dir
-      else (to, V_EQ)
+      if m == 0 then (to, V_EQ)
+      -- truncated towards zero: above the exact quotient iff remainder and divisor have opposite signs
+      else if decide (m < 0) != decide (y < 0) then roundLtNoOverflow to dir
+      else roundGtNoOverflow to dir
 
 def divUnsigned (t : IntTy) (π : Policy) (to0 x y : Int) (dir : Dir) : Int × Result :=
   if π.checkDivZero && y == 0 then assignNan t π to0 V_DIV_ZERO
@@ -418,21 +419,22 @@ def umod2expUnsigned (t : IntTy) (_π : Policy) (_to0 x : Int) (e : Nat) (_dir :
 def umod2expSigned (t : IntTy) (π : Policy) (to0 x : Int) (e : Nat) (dir : Dir) : Int × Result :=
   if e ≥ t.bits then
     if x < 0 then setPosOverflow t π to0 dir else (x, V_EQ)
-  else (x % pow2 e, V_EQ)
+  else
+    let v := x % pow2 e
+    if v > t.emax π then setPosOverflow t π to0 dir else (v, V_EQ)
 
 /-! ## square root -/
 
 /-- the loop of `isqrt_rem`: `fuel` bounds the iterations (`t` is shifted right by 2 each time).
 `q`, `r`, `s`, `t` are variables of type `Type`: every store is converted to the type
-(`q = s + t` does exceed a *signed* type for operands `≥ 2^(bits-2)`; `>>` on a negative value is
-the arithmetic shift, i.e. floor division). -/
+(`q = (q >> 1) + t`; `>>` is floor division). -/
 def isqrtLoop (ty : IntTy) : Nat → Int → Int → Int → Int × Int
   | 0, q, r, _ => (q, r)
   | fuel + 1, q, r, tt =>
     if tt == 0 then (q, r)
     else
       let s := ty.wrap (q + tt)
-      if s ≤ r then isqrtLoop ty fuel (ty.wrap (s + tt) / 2) (ty.wrap (r - s)) (tt / 4)
+      if s ≤ r then isqrtLoop ty fuel (ty.wrap (q / 2 + tt)) (ty.wrap (r - s)) (tt / 4)
       else isqrtLoop ty fuel (q / 2) r (tt / 4)
 
 /-- `isqrt_rem(q, r, from)`: `t = 1 << (bits - 2)` -/
@@ -504,7 +506,9 @@ def subMul (t : IntTy) (π : Policy) (to0 x y : Int) (dir : Dir) : Int × Result
   else if ov == -1 then
     if to0 ≥ 0 then setPosOverflow t π to0 dir else assignNan t π to0 V_UNKNOWN_NEG_OVERFLOW
   else
-    if to0 ≤ 0 then setNegOverflow t π to0 dir else assignNan t π to0 V_UNKNOWN_POS_OVERFLOW
+    -- x * y > max: `to - x * y` is below min when to < 0; for to == 0 only if the range is symmetric
+    if to0 < 0 || (to0 == 0 && decide (t.emin π + t.emax π ≥ 0)) then setNegOverflow t π to0 dir
+    else assignNan t π to0 V_UNKNOWN_POS_OVERFLOW
 
 /-! ## gcd, lcm -/
 
